@@ -1070,6 +1070,11 @@ LOOP:
 				if l.src[p] != '\n' {
 					return l.errorf(bomErrorMsg)
 				}
+				for _, c := range l.src[:p] {
+					if isStartChar(c) {
+						l.column++
+					}
+				}
 				l.src = l.src[p:]
 				if endLineAsSemicolon {
 					l.emit(tokenSemicolon, 0)
